@@ -1,4 +1,4 @@
-use std::{fmt, io};
+use std::{collections::VecDeque, fmt, io};
 
 use bitflags::bitflags;
 use bytes::BytesMut;
@@ -31,6 +31,10 @@ pub struct Codec {
     // encoder part
     flags: Flags,
     encoder: encoder::MessageEncoder<Response<()>>,
+
+    // (is HEAD, version, connection type) of requests decoded but not yet responded to; responses
+    // are encoded in request order so each one is framed from its own request's context
+    pending: VecDeque<(bool, Version, ConnectionType)>,
 }
 
 impl Default for Codec {
@@ -66,6 +70,7 @@ impl Codec {
             version: Version::HTTP_11,
             conn_type: ConnectionType::Close,
             encoder: encoder::MessageEncoder::default(),
+            pending: VecDeque::new(),
         }
     }
 
@@ -131,6 +136,12 @@ impl Decoder for Codec {
                 self.conn_type = ConnectionType::Close
             }
 
+            self.pending.push_back((
+                self.flags.contains(Flags::HEAD),
+                self.version,
+                self.conn_type,
+            ));
+
             match payload {
                 PayloadType::None => self.payload = None,
                 PayloadType::Payload(pl) => self.payload = Some(pl),
@@ -156,6 +167,14 @@ impl Encoder<Message<(Response<()>, BodySize)>> for Codec {
     ) -> Result<(), Self::Error> {
         match item {
             Message::Item((mut res, length)) => {
+                // restore context of the request this response belongs to; a pipelined request
+                // decoded in the meantime must not influence it
+                if let Some((head, version, conn_type)) = self.pending.pop_front() {
+                    self.flags.set(Flags::HEAD, head);
+                    self.version = version;
+                    self.conn_type = conn_type;
+                }
+
                 // set response version
                 res.head_mut().version = self.version;
 
